@@ -110,13 +110,15 @@ class Monitor(object):
         g, e, v = a[0], a[1], a[2]
         age = kwargs.get('age', a[3])
         esaa = bool(kwargs.get('esaa', a[4]))
-        if not out.ok or out.value is None or (g, e) not in self.live or not isinstance(v, (int, float)):
+        if not out.ok or out.value is None or not isinstance(e, str) or (g, e.upper()) not in self.live or not isinstance(v, (int, float)):
             return
+        spelled = e
+        e = e.upper()           # the library itself folds the case of the code when it looks the coefficients up
         n = round(v * 100)
         if abs(v * 100 - n) > 1e-6:
             return
-        self.feed('athlon', (g, e, age, esaa), F(n, 100), AO.kind_of(e) == 't', out.value, 0, 10 ** 9,
-                  {'system': 'athlon', 'g': g, 'e': e, 'v': v, 'age': age, 'esaa': esaa})
+        self.feed('athlon', (g, spelled, age, esaa), F(n, 100), AO.kind_of(e) == 't', out.value, 0, 10 ** 9,
+                  {'system': 'athlon', 'g': g, 'e': spelled, 'v': v, 'age': age, 'esaa': esaa})
 
     def hungarian_timed(self, row):
         return row[4] < 0          # (perf + b)**2 with b < 0: a time; b > 0: distance / points
@@ -191,6 +193,11 @@ def run_job(mon, ctx, job, rnd):
         for n in plain:
             if n % 2:
                 attach.call(f, g, e, n / 100)
+        # other spellings of the code that the library scores as well (it folds the case for the coefficient lookup)
+        for sp in (e.lower(), e.capitalize()):
+            if sp != e:
+                for n in windows(0, top, 'quick', rnd, centres=(zh,), width=150, nrand=2):
+                    attach.call(f, g, sp, n / 100)
     elif job[0] == 'hungarian':
         _, g, io, ev = job
         f = mon.hm.score
